@@ -336,6 +336,53 @@ def gen_cases(ctx, pool, exp_safe):
             yield name, opcode, ops
 
 
+def in_context(ctx, pool):
+    """the same instructions inside a multi-path run: the instruction executes on a path that was left pending while a
+    sibling path branched on `x == c` for one of its operands x (what a path learnt must not change what an instruction
+    computes on another path).  Whole programs through SEVM.run, compared per input with the reference EVM."""
+    from vlib import asm, sevmcheck
+    from vlib.evmdiff import MAIN, Scenario
+
+    names = sorted(OPS)
+
+    def gen(rng):
+        name = rng.choice(names)
+        _, arity = OPS[name]
+        c = rng.choice([0, 1, 2, 5, 31, 32, 255, 256]) if rng.random() < 0.7 else rng.choice(pool) % W
+        xpos = rng.randrange(arity)
+        x = [("push", 4), "CALLDATALOAD"]
+        if rng.random() < 0.3:
+            x = x + [("push", 0xFF), "AND"]
+        ops = []
+        for j in range(arity):
+            if j == xpos:
+                ops.append(x)
+            elif rng.random() < 0.3:
+                ops.append([("push", 0x44), "CALLDATALOAD"])
+            else:
+                ops.append([("push", rng.choice([0, 1, 2, 3, 7, 31, 32, 0x80, 0x8080, 255, 256, W - 1, 1 << 255, rng.choice(pool) % W]))])
+        body = []
+        for o in reversed(ops):       # first operand ends on top of the stack
+            body += o
+        body += [name, ("push", 0), "MSTORE", ("push", 0x20), ("push", 0), "RETURN"]
+        learn = x + [("push", c), "EQ", ("ref", "A"), "JUMPI", "STOP", ("label", "A"), "STOP"]
+        if rng.random() < 0.5:
+            # the pending sibling is the taken side of the first JUMPI
+            items = [("push", 0x24), "CALLDATALOAD", ("ref", "B"), "JUMPI"] + learn + [("label", "B")] + body
+            shape = "pending-taken"
+        else:
+            items = [("push", 0x24), "CALLDATALOAD", "ISZERO", ("ref", "L"), "JUMPI"] + body + [("label", "L")] + learn
+            shape = "pending-fallthrough"
+        return Scenario({MAIN: asm.assemble(items)}, nargs=3), {f"ctx:{name}": 1, f"ctx:{shape}": 1, f"ctx:xpos{xpos}": 1}
+
+    before = len(ctx.violations)
+    sevmcheck.run(ctx, "C01", {}, n_scenarios=ctx.scale(60, 1500), n_random_inputs=ctx.scale(6, 12),
+                  cfgs=[{}], gen=gen, corpus=False)
+    for v in ctx.violations[before:]:
+        v["key"] = "in-context|" + v["key"]
+        v["what"] = "instruction inside a multi-path run: " + v["what"]
+
+
 def correspond(ctx):
     from vlib import sevmdrv
 
@@ -440,6 +487,7 @@ def correspond(ctx):
         elif (mcls[0] == "b") != (cls[0] == "b"):
             stale.append((name, reps, impl, model))
     singleton_probe(ctx, "end")
+    in_context(ctx, pool)
     if stale:
         raise RuntimeError(f"Model.BitVecOps disagrees with the implementation on {len(stale)} cases where the implementation "
                            f"matches the Spec (model is stale): first = {stale[0]}")
